@@ -40,6 +40,7 @@ def run_shard(spec, ctx):
         range_mon.install(ctx, mods)
         workloads.run_valid(ctx, mods, spec["n"] * len(TASK_NAMES) // 13,
                             ctx.rng("valid"), on_ret=_sampler(ctx))
+        _doubled_note_patterns(ctx, mods, ctx.rng("dups"), max(5, spec["n"] // 8))
     else:
         from . import w7
         from .. import valid
@@ -49,6 +50,25 @@ def run_shard(spec, ctx):
     ctx.count("noninterference.shims_checked", n)
     if problems:
         ctx.mark_inconclusive("shim fidelity: %r" % problems[:3])
+
+
+def _doubled_note_patterns(ctx, mods, r, n):
+    """Pattern occurrences in which a note is listed twice (two voices in
+    unison): admitted by the validator, absent from the shared generator."""
+    from .. import tasks
+    for _ in range(n):
+        inp = tasks.gen_pattern(r)
+        for side in ("ref", "est"):
+            if r.random() < 0.7:
+                for pat in inp[side]:
+                    for occ in pat:
+                        if occ and r.random() < 0.6:
+                            for _k in range(r.randrange(1, len(occ) + 1)):
+                                occ.append(occ[r.randrange(len(occ))])
+        workloads.run_calls(ctx, mods, tasks.calls_pattern(inp, r))
+        a, kw = tasks.eval_pattern(inp, r)
+        workloads.run_calls(ctx, mods, [("pattern.evaluate", a, kw)])
+    ctx.count("doubled_note_pattern_cases", n)
 
 
 def _sampler(ctx):
